@@ -214,7 +214,17 @@ protected:
 Counters PayloadB::cnt;
 
 template <class P> P& firstAccess(int who);
-template <> PayloadA& firstAccess<PayloadA>(int who) { return PayloadA::instance(who); }
+/// the racing threads use different call forms (lvalue / rvalue / const lvalue argument): instance() is a member template over
+/// the argument types, so every form is a separate instantiation - anything that is static per instantiation is not shared
+template <> PayloadA& firstAccess<PayloadA>(int who)
+{
+   switch (who % 3)
+   {
+   case 0: return PayloadA::instance(who);
+   case 1: return PayloadA::instance(int(who));
+   default: { const int cw = who; return PayloadA::instance(cw); }
+   }
+}
 template <> PayloadB& firstAccess<PayloadB>(int) { return PayloadB::instance(); }
 
 struct Slot   // written by exactly one worker, read by the main thread after the closing barrier
